@@ -386,6 +386,10 @@ func (u *Universe) makeResolver(def *ast.Definition, fd *ast.FieldDefinition, ft
 			atomic.AddInt64(&e.calls, 1)
 		}
 		o := e.Plan.Get(path, !fd.Type.NonNull)
+		if strings.HasSuffix(fd.Name, "Echo") {
+			// echo fields always return their argument: the plan's default nulls do not apply
+			o = plan.Outcome{Kind: plan.Value}
+		}
 		if y, sl, w, sg := e.Plan.Sched(path); y+sl > 0 || w != "" || sg != "" {
 			o.Yield, o.SleepUS, o.Wait, o.Signal = o.Yield+y, o.SleepUS+sl, w, sg
 		}
@@ -416,6 +420,34 @@ func (u *Universe) makeResolver(def *ast.Definition, fd *ast.FieldDefinition, ft
 		}
 		if stream {
 			return []reflect.Value{u.buildStream(ctx, e, retT, fd.Type, path, shapeOf(ctx)), noErr}
+		}
+		if strings.HasSuffix(fd.Name, "Echo") {
+			// echo fields return their first argument (or, for an input object, its first field)
+			first := 1
+			if !isRoot {
+				first = 2
+			}
+			if first < len(in) {
+				a := in[first]
+				for a.Kind() == reflect.Ptr && !a.IsNil() && a.Type() != retT && a.Elem().Kind() == reflect.Struct {
+					a = a.Elem().Field(0)
+				}
+				if a.Kind() == reflect.Struct && a.Type() != retT && a.NumField() > 0 {
+					a = a.Field(0)
+				}
+				if a.Type().AssignableTo(retT) {
+					return []reflect.Value{a, noErr}
+				}
+				if a.Kind() != reflect.Ptr && reflect.PtrTo(a.Type()).AssignableTo(retT) {
+					p := reflect.New(a.Type())
+					p.Elem().Set(a)
+					return []reflect.Value{p, noErr}
+				}
+				if a.Kind() == reflect.Ptr && !a.IsNil() && a.Elem().Type().AssignableTo(retT) {
+					return []reflect.Value{a.Elem(), noErr}
+				}
+			}
+			return []reflect.Value{zero, noErr}
 		}
 		if e.Echo && fd.Type.Elem == nil && (retT.Kind() == reflect.String || (retT.Kind() == reflect.Ptr && retT.Elem().Kind() == reflect.String)) {
 			first := 1
